@@ -44,6 +44,7 @@ ASSUMPTIONS = [
     "depth-bounded families (rods, Sphere2Sphere, Mesh1D full alphabet, RigidBody all-methods group) are verified up to the stated depth only; states reached by the last level are counted without merging",
     "an evaluation that raises without memoisation is outside the domain of the property (counted as n_twin_raises_excluded), whatever the memoised call does",
 ]
+MAX_STATES = 30000  # safety net: never reached on the unchanged tree (largest case: 10.5k states)
 MIN_NONTRIVIAL = 20
 MIN_OUTCOMES = 2
 CASE_TIMEOUT = 900
@@ -734,7 +735,7 @@ def cases(tier, seed):
         for g in S2S_GROUPS:
             if pair == "frame-body" and g == "friction" and quick:
                 continue
-            c = {"family": "Sphere2Sphere", "pair": pair, "group": g, "depth": 3 if (quick or g != "tangent") else 4, "tier": tier}
+            c = {"family": "Sphere2Sphere", "pair": pair, "group": g, "depth": 3 if (quick or g != "tangent" or pair != "body-body") else 4, "tier": tier}
             n = len(_s2s_letters(pair, g, tier))
             for first in range(n):
                 out.append(dict(c, first=first))
@@ -820,6 +821,8 @@ def check(case):
                 outcomes.add(("hit" if hit else "miss") + (":equal" if eq else ":DIFFERENT"))
             if not eq and not explain:
                 return run(hist, li, explain=True, need_canon=need_canon)
+            if explain and eq:
+                raise RuntimeError("harness: a differing transition did not reproduce on re-execution: " + L.name)
             if not eq:
                 site = f"{case['family']}.{L.method} memoised vs cache-free twin"
                 if isinstance(r1, _Raised) != isinstance(r2, _Raised):
@@ -861,7 +864,8 @@ def check(case):
         seen.add(c1)
         depth = 1
     n_unmerged_last = 0
-    while frontier and depth < max_depth:
+    capped = False
+    while frontier and depth < max_depth and not capped:
         new = []
         last = depth + 1 >= max_depth  # successors of the last level are not expanded: no canon needed
         for hist in frontier:
@@ -872,6 +876,9 @@ def check(case):
                 elif c not in seen:
                     seen.add(c)
                     new.append(hist + (li,))
+            if len(seen) > MAX_STATES or (fails and len(seen) > MAX_STATES // 5):
+                capped = True  # (only reachable when evaluations have side effects: the graph is no longer finite)
+                break
         if last:
             new = [None] if frontier else []
         frontier = new
@@ -883,6 +890,9 @@ def check(case):
     stats["max_depth"] = depth
     stats["n_fixpoint_cases"] = 1 if fix else 0
     stats["max_alphabet"] = len(letters)
-    return {"fails": list(fails.values()), "nontrivial": stats["n_hits"] > 0 and stats["n_compared"] > 0,
+    res = {"fails": list(fails.values()), "nontrivial": stats["n_hits"] > 0 and stats["n_compared"] > 0,
             "evals": stats["n_compared"], "states": len(seen) + n_unmerged_last, "transitions": transitions,
             "outcome": sorted(outcomes), "stats": stats}
+    if capped:
+        res["aborted"] = "state-cap"
+    return res
